@@ -166,7 +166,7 @@ def check_case(case, ctx):
 
 
 def reach(counters, tier, info):
-    k = 1 if tier == "quick" else 20
+    k = 0.5 if tier == "quick" else 20
     out = []
     for name, key, need in [("cases with >= 3 ParCons groups", "parcons_ge3_groups", 300 * k),
                             ("cases where ParFront != ParCons", "parfront_differs", 100 * k),
